@@ -1,8 +1,10 @@
 (* C18 -- the dialect is chosen by options, then by the query header, then generic.
-   Only statements here; proofs are in Proofs/SelectProofs.v.  Tables are Gen/GenDialect.v,
-   regenerated from /repo on every run. *)
+   Only statements here; proofs are in Proofs/SelectProofs.v and Proofs/SelectReadsProofs.v.  Tables are Gen/GenDialect.v and
+   Gen/GenDialectReads.v (the inventory of every read of the option / the header / the chosen dialect), regenerated from
+   /repo on every run. *)
 From Coq Require Import List NArith Bool.
-From PV Require Import Lib.ListX Model.Select Proofs.SelectProofs Gen.GenDialect.
+From PV Require Import Lib.ListX Model.Select Proofs.SelectProofs Gen.GenDialect
+  Model.SelectReads Proofs.SelectReadsProofs Gen.GenDialectReads.
 Import ListNotations.
 Local Open Scope N_scope.
 
@@ -69,6 +71,80 @@ Print Assumptions c18_from_str_total_inverse.
 Theorem c18_header_any_is_generic : sel None (Some (pfx ++ any)) = Ok dflt.
 Proof. exact (header_any_is_default names dflt pfx any). Qed.
 Print Assumptions c18_header_any_is_generic.
+
+(* ---------------------------------------------------------------------------------------------------------------
+   The same theorems WITHOUT assuming that the back end is a function of the chosen dialect (Model/SelectReads.v):
+   front end and back end are arbitrary programs that may read the option (`options.target` / the `dialect: Option<Dialect>`
+   parameter), the header (`QueryDef.other["target"]`) and the chosen dialect (`ctx.dialect`, `ctx.dialect_enum`) -- but
+   only at the sites of the inventory [rsites] regenerated from /repo (every occurrence of those names in the Rust source,
+   classified).  [c18_reads_inventory_ok] is the obligation on the inventory: outside the command line the option is only
+   bound, passed on unchanged, selected on and printed in the signature comment; the header is only declared, stored by
+   the parser, printed by the formatter and selected on; the chosen dialect is only read, in the back end, from a Context
+   built once by Context::new from compile_query's choice; target names are parsed nowhere else. *)
+Notation rsites := GenDialectReads.reads.
+
+Theorem c18_reads_inventory_ok : reads_table_ok rsites = true.
+Proof. vm_compute. reflexivity. Qed.
+Print Assumptions c18_reads_inventory_ok.
+
+Section ReadSites.
+  Variable src rq sql : Type.
+  Variable fe : src -> rd rq.      (* parser + resolver + lowering *)
+  Variable bk : rq -> rd sql.      (* the SQL back end *)
+  Hypothesis FE : forall s, reads_within rsites st_front (fe s).     (* the inventory is complete for the front end ... *)
+  Hypothesis BK : forall q, reads_within rsites st_back (bk q).      (* ... and for the back end *)
+  Notation crd := (compile_rd names dflt pfx any src rq sql fe bk).
+
+  (* the pipeline is an instance of the abstract model: its output is a function of the selected dialect only *)
+  Theorem c18_rd_refines_selection : forall opt hdr s,
+    crd opt hdr s = compile_with names dflt pfx any src sql (gen_of dflt src rq sql fe bk) opt hdr s.
+  Proof. exact (compile_rd_factor rsites c18_reads_inventory_ok names dflt pfx any src rq sql fe bk FE BK). Qed.
+
+  Theorem c18_rd_option_eq_header : forall d s, (d < length names)%nat ->
+    crd (Some d) None s = crd None (Some (tname d)) s.
+  Proof. exact (rd_option_eq_header rsites c18_reads_inventory_ok names dflt pfx any c18_table_ok src rq sql fe bk FE BK). Qed.
+
+  Theorem c18_rd_option_overrides_header : forall d h h' s, crd (Some d) h s = crd (Some d) h' s.
+  Proof. exact (rd_option_overrides_header rsites c18_reads_inventory_ok names dflt pfx any src rq sql fe bk FE BK). Qed.
+
+  Theorem c18_rd_neither_is_generic : forall s, crd None None s = crd (Some dflt) None s.
+  Proof. exact (rd_neither_is_default rsites c18_reads_inventory_ok names dflt pfx any src rq sql fe bk FE BK). Qed.
+
+  Theorem c18_rd_unknown_target_is_error : forall h s,
+    (forall d, (d < length names)%nat -> h <> tname d) -> h <> pfx ++ any -> crd None (Some h) s = Err.
+  Proof. exact (rd_unknown_target_is_error rsites c18_reads_inventory_ok names dflt pfx any c18_table_ok src rq sql fe bk FE BK). Qed.
+
+  (* the choice never changes which programs the resolver accepts (nor what it produces) *)
+  Theorem c18_rd_resolver_ignores_target : forall o h o' h' s,
+    resolve_rd dflt src rq fe o h s = resolve_rd dflt src rq fe o' h' s.
+  Proof. exact (rd_resolver_ignores_target rsites c18_reads_inventory_ok dflt src rq fe FE). Qed.
+End ReadSites.
+Print Assumptions c18_rd_refines_selection.
+Print Assumptions c18_rd_option_eq_header.
+Print Assumptions c18_rd_option_overrides_header.
+Print Assumptions c18_rd_neither_is_generic.
+Print Assumptions c18_rd_unknown_target_is_error.
+Print Assumptions c18_rd_resolver_ignores_target.
+
+(* non-vacuity of the hypotheses: the inventory does offer the back end sites at which it may branch on the chosen dialect
+   (so back ends that differ between dialects are covered), e.g. this one reads it at the first such site *)
+Example c18_ex_backend_reads_chosen :
+  reads_within rsites st_back
+    (Read RChosen (first_free rsites st_back k_chosen) (fun a => match a with AChosen d => Ret (Ok d) | _ => Ret Err end)).
+Proof. apply RW_read; [vm_compute; reflexivity|]. intros [o|h|d]; apply RW_ret. Qed.
+(* the obligation is what carries the theorems: with ONE more site at which the back end may branch on the raw option (the
+   shape of `dialect != Some(Dialect::MsSql)` inside translate_query) a back end within the inventory breaks option = header *)
+Example c18_ex_option_read_breaks :
+  let T' := [(k_opt, (st_back, (9, ([], []))))] in
+  let bk' := fun _ : unit => Read ROpt 0 (fun a => match a with AOpt (Some _) => Ret (Ok 1) | _ => Ret (Ok 2) end) in
+  reads_table_ok T' = false /\ (forall q, reads_within T' st_back (bk' q)) /\
+  compile_rd names dflt pfx any unit unit N (fun _ => Ret (Ok tt)) bk' (Some 0%nat) None tt
+    <> compile_rd names dflt pfx any unit unit N (fun _ => Ret (Ok tt)) bk' None (Some (tname 0%nat)) tt.
+Proof.
+  cbv zeta. split; [vm_compute; reflexivity|]. split.
+  - intros q. apply RW_read; [vm_compute; reflexivity|]. intros [[o|]|h|d]; apply RW_ret.
+  - vm_compute. discriminate.
+Qed.
 
 (* non-vacuity: a concrete declared dialect and a concrete unknown name *)
 Example c18_ex_sqlite : sel None (Some (pfx ++ [115;113;108;105;116;101])) = Ok 10%nat.
